@@ -356,7 +356,7 @@ where
                                     }
                                 }
                             },
-                            Some((author, log_ranges)) = remote_needs.next().instrument(span.clone()) => {
+                            Some((author, log_ranges)) = remote_needs.next().instrument(span.clone()), if !sync_done_sent => {
                                 for (log_id, (after, until)) in log_ranges {
                                     // Get all entries from the log we should send to the remote.
                                     let Some(result) = self
